@@ -867,17 +867,43 @@ func (c *Ctx) panicRole(name string) string {
 	if r := roleOf(f); r != "" {
 		return r
 	}
-	// helper: all callers share roles
+	// helper: every way it is reached (through private helpers) starts in a role function
 	roles := map[string]bool{}
-	for _, cs := range p.Callers(f) {
-		r := roleOf(core.Outer(cs.Parent()))
-		if r == "" && cs.Parent() != nil {
-			r = roleOf(cs.Parent())
+	var climb func(g *ssa.Function, d int) bool
+	climb = func(g *ssa.Function, d int) bool {
+		if r := roleOf(g); r != "" {
+			roles[r] = true
+			return true
 		}
-		if r == "" {
+		if g.Parent() != nil {
+			if r := roleOf(g.Parent()); r != "" {
+				roles[r] = true
+				return true
+			}
+		}
+		o := core.Outer(g)
+		if r := roleOf(o); r != "" {
+			roles[r] = true
+			return true
+		}
+		if d > 4 || !p.PrivateHelper(o) {
+			return false
+		}
+		sites := p.Callers(o)
+		if len(sites) == 0 {
+			return false
+		}
+		for _, cs := range sites {
+			if !climb(cs.Parent(), d+1) {
+				return false
+			}
+		}
+		return true
+	}
+	for _, cs := range p.Callers(f) {
+		if !climb(cs.Parent(), 0) {
 			return name
 		}
-		roles[r] = true
 	}
 	if len(roles) == 0 {
 		return name
